@@ -26,8 +26,13 @@ BoundaryCodes == {0, 999, 1000, 1001, 1003, 1004, 1005, 1006, 1007, 1010, 1014, 
 ReasonLens == {0, 1, 122, 123, 124, 125, 130}
 Quick == IF "QUICK" \in DOMAIN IOEnv THEN IOEnv.QUICK = "1" ELSE FALSE
 
-S(c, r, p) == [dir |-> "send", code |-> c, rlen |-> r, exp |-> [o |-> CloseOutcome(c, r), code |-> 0, echo |-> FALSE], peer |-> p]
-Rv(c, r)   == [dir |-> "recv", code |-> c, rlen |-> r, exp |-> RecvOutcome(c, r), peer |-> "none"]
+(* What the closing side's own reader has consumed when Close is called does not change the outcome: Close must find the    *)
+(* peer's Close frame behind whatever is still unread (the rest of a frame, of a message, whole messages, control frames).   *)
+LocalStates == {"idle", "halfread-final-frame", "halfread-last-fragment", "halfread-first-fragment", "nothing-read-of-two-messages-and-a-ping",
+                "message-read-to-the-end", "compressed-halfread"}
+SP(c, r, p, pre) == [dir |-> "send", code |-> c, rlen |-> r, exp |-> [o |-> CloseOutcome(c, r), code |-> 0, echo |-> FALSE], peer |-> p, pre |-> pre]
+S(c, r, p) == SP(c, r, p, "idle")
+Rv(c, r)   == [dir |-> "recv", code |-> c, rlen |-> r, exp |-> RecvOutcome(c, r), peer |-> "none", pre |-> "idle"]
 (* codes -1..65536 as a sequence (no set normalisation: 200k rows in a few seconds) *)
 CodeAt(i) == i - 2
 SendAll0   == [i \in 1..65538 |-> S(CodeAt(i), 0, "echo")]
@@ -38,6 +43,7 @@ AliasCodes == UNION { {65536 + c, 131072 + c, c - 65536, 65536 * 4096 + c} : c \
 Small == SetToSeq(
      { S(c, r, "echo") : c \in BoundaryCodes \cup {2147483647} \cup AliasCodes, r \in ReasonLens }
   \cup { S(c, 3, p) : c \in {1000, 1001, 3000, 4999, 1005}, p \in {"other", "none"} }
+  \cup { SP(c, r, "echo", pre) : c \in {1000, 1001, 3000, 4999, 1005, 1006}, r \in {0, 3, 123}, pre \in LocalStates \ {"idle"} }
   \cup { Rv(c, r) : c \in (BoundaryCodes \cap (0..65535)), r \in {1, 122, 123} }
   \cup { Rv(0, r) : r \in {-1, -2} })
 Rows == SendAll0 \o SendAll123 \o RecvAll \o Small
